@@ -30,7 +30,7 @@ from vf.ref import poly, quad
 from vf.ref import fit as reffit
 
 ID = 'C03'
-N = {'quick': 4000, 'thorough': 90000}
+N = {'quick': 8000, 'thorough': 200000}
 NT_RULE = ('one case = one fit: class x constructor x source (StatMech gas/adsorbate over the C01 '
            'generator, constant-Cp, zero-Cp, random polynomial of the target family) x window '
            '100<=T_low<T_high<=3000 (width>=100) x n_T 15..200 x grid (linear/geometric/jittered, '
